@@ -111,6 +111,22 @@ def exP2 : Crypto := { exP with sigOK := fun k m s => k == "K1" && m == exM0 && 
 def exC2 : Cred := { exU with proof := .one { exProof with jws := "S0" }, nProofs := 1 }
 def exT : Template := { ctx := [vcContextV1], types := ["T"], issuer := "did:x:i", expires := none, subjects := some [.did "did:x:i"], shapeOK := true, claims := [] }
 
+/-- The relationship that is consulted is not the signer's choice: the verdict of `Verify` does not depend on the proof's
+    `proofPurpose` except through the signed bytes — two proofs that differ only in the purpose and carry signatures that are equally
+    (in)valid get the same verdict, and an accepted one is signed by an ASSERTION key whatever purpose it states. -/
+theorem proof_purpose_does_not_select_the_relationship (cfg : Cfg) (P : Crypto) (E : Env) (au : Bool) (at_ : Option Time) (c : Cred)
+    (p : Proof) (purpose : String) (hfmt : c.format = .ld) (hp : c.proof = .one p)
+    (h : verify cfg P E au true at_ { c with proof := .one { p with purpose := purpose } } = .ok ()) :
+    ∃ k, AuthorisedAt E at_ p.vm k ∧ resolveKeyByID E at_ p.vm = some k := by
+  obtain ⟨_, _, _, _, _, _, hsig⟩ := verify_ok_iff.mp h
+  obtain ⟨_, hsv⟩ := hsig rfl
+  unfold SigValid at hsv
+  simp only [hfmt] at hsv
+  obtain ⟨_, _, p', k, hp', _, _, ha, hk, _, _⟩ := hsv
+  simp only at hp'
+  cases hp'
+  exact ⟨k, ha, hk⟩
+
 /-! ## 2b. presentations -/
 
 /-- A presentation reported valid is signed (same conjuncts as for a credential, with the SIGNER's DID in the place of
@@ -932,6 +948,13 @@ theorem fact_verifier_is_stateless :
     can skip it (see also `storeCredentialReturns` in fact_wiring) -/
 theorem fact_store_credential_always_verifies_the_signature :
     Nuts.Facts.C01.storeCredentialVerifiesSignatureUnconditionally = true := by decide
+/-- every key lookup of the verifier asks for the SAME constant relationship (NutsSigningKeyType = AssertionMethod, see
+    fact_signing_key_relation) — jsonldProof once, the JWT path once, RegisterRevocation once; no proof field selects it.  And the status
+    list verifier checks downloaded lists with VerifySignature (signature + key of the list's issuer), not with the soft-failing Verify -/
+theorem fact_key_lookup_relationship_is_constant :
+    Nuts.Facts.C01.keyLookupRelations = ["jsonldProof:resolver.NutsSigningKeyType", "resolveSigningKey:resolver.NutsSigningKeyType", "RegisterRevocation:resolver.NutsSigningKeyType"] ∧
+    Nuts.Facts.C01.newVerifierStatusListWiring = ["credentialStatus.VerifySignature = v.VerifySignature"] := by
+  refine ⟨by rfl, by rfl⟩
 theorem fact_max_skew : Nuts.Facts.C01.maxSkewMs = 5000 := by decide
 theorem fact_supported_algs : Nuts.Facts.C01.supportedAlgs = ["ES256", "EdDSA", "ES384", "ES512", "PS256", "PS384", "PS512"] := by decide
 theorem fact_signing_key_relation : Nuts.Facts.C01.signingKeyRelation = "AssertionMethod" := by decide
